@@ -345,3 +345,12 @@ claim(
     "abstract interpretation over a stencil domain; residual polynomial identity against the discrete Ampere law; path enumeration of the acceptance guard; who-may-call table",
     "DESIGN.md §5 C36",
 )
+
+claim(
+    "C31",
+    "other",
+    "Decides writer / reader agreement of the setup serialisation by interpreting the repo's own _export_json, _import_obj_from_json, JsonSetup.dumps / loads / validate on abstract object graphs (json modelled by its specification: dict keys sorted, arrays in order, tuples written as arrays): every node form the writer emits — None, scalars, tuples, lists, string-keyed dicts, the four dataclass constraint kinds, tree classes (configuration with grid policy, dtype and symmetry; volume; material objects with constructed materials; a source with nested wave character, pulse profile and switch; a detector) — is rebuilt with the same class and equal public fields, recursively, tuples staying tuples; a whole setup whose object names are not in alphabetical order comes back with object_list and constraints in the original order; every member of JAX_DTYPES is written as the dotted name the reader resolves to the same dtype; every class the validator admits is a dataclass or a tree class whose exported public fields are constructor keywords. That place_objects is deterministic in (config, object_list, constraints) and json's float formatting are assumed; numpy / jax arrays inside a setup are not covered.",
+    TB + "; json / importlib / re modelled by their specifications (re by constant folding on concrete strings)",
+    "abstract interpretation of the exporter and the importer on abstract object graphs; structural equality of import(export(x)) and x; exhaustiveness over the dtype table and the validator's class table",
+    "DESIGN.md §5 C31",
+)
